@@ -358,6 +358,13 @@ func registerIntrinsics(e *Engine) {
 			} else {
 				rest = a[0].([]value)
 			}
+			// only %s / %v verbs and every non-concrete argument a string: the
+			// result is an exact (symbolic) concatenation
+			if fmtIdx >= 0 {
+				if out, ok := sprintfStrings(p, format, rest); ok {
+					return out, true
+				}
+			}
 			gargs := make([]interface{}, len(rest))
 			allOK := true
 			for i, r := range rest {
@@ -1503,6 +1510,61 @@ func xlanguageParse(s string) (string, error) {
 }
 
 // expandTemplate: regexp.Expand for numeric group references only.
+// sprintfStrings evaluates a format that uses only %s and %v (and %%) when the
+// arguments that are not concrete are strings; ok=false otherwise.
+func sprintfStrings(p *Path, format string, args []value) (value, bool) {
+	var out value = ""
+	next := 0
+	symbolic := false
+	for i := 0; i < len(format); i++ {
+		c := format[i]
+		if c != '%' {
+			out = strConcat(out, string(c))
+			continue
+		}
+		if i+1 >= len(format) {
+			return nil, false
+		}
+		i++
+		switch format[i] {
+		case '%':
+			out = strConcat(out, "%")
+		case 's', 'v':
+			if next >= len(args) {
+				return nil, false
+			}
+			a := args[next]
+			next++
+			if ifc, isIface := a.(iface); isIface {
+				a = ifc.v
+			}
+			if g, ok := p.toGo(a); ok {
+				if format[i] == 's' {
+					out = strConcat(out, fmt.Sprintf("%s", g))
+				} else {
+					out = strConcat(out, fmt.Sprintf("%v", g))
+				}
+				continue
+			}
+			switch sv := a.(type) {
+			case string:
+				out = strConcat(out, sv)
+			case *SymStr:
+				out = strConcat(out, sv)
+				symbolic = true
+			default:
+				return nil, false
+			}
+		default:
+			return nil, false
+		}
+	}
+	if next != len(args) || !symbolic {
+		return nil, false // let the concrete path produce Go's exact text (extra-argument notes etc.)
+	}
+	return out, true
+}
+
 func expandTemplate(tmpl string, src value, m []int) value {
 	var out value = ""
 	for i := 0; i < len(tmpl); i++ {
